@@ -37,6 +37,7 @@ RULE = ("part 1: request type K/M/R x role x public API entry point (create_keep
         "TimeUnit x max_time {0,1,1000} x socket id {0,1,3} x remote node {bob, charlie} x measurement spec (each rotation "
         "component 0..31 one at a time, the {0,1,31}^3 cube local / remote / local x remote, all (EprMeasBasis|None)^2, all "
         "(RandomBasis|None)^2) x min_fidelity_all_at_end/max_tries variants (first try succeeds / first try fails); "
+        "every seventh case of part 1 also with an EPRSocket object that served a connection of another network before; "
         "part 2: API entry point x role x number 1..3 x socket x remote x Bell/basis rotation of the per-pair enum fields x "
         "expect_phi_plus x with/without min-fidelity loop, responses with all-distinct field values; distinct = distinct case "
         "description; every case is non-trivial (a request is issued / a registration is made and all pairs are delivered)")
@@ -176,6 +177,14 @@ def make_world(case):
     from netqasm.sdk.epr_socket import EPRSocket
     world.reset()
     es = EPRSocket(case["remote"], epr_socket_id=case["socket"], remote_epr_socket_id=case.get("remote_socket", 0))
+    if case.get("socket_history") == "used-before-in-another-network":
+        # the same socket object served an earlier connection of a network in which the remote application ran on another
+        # node: nothing of that attachment may survive into the requests of this one
+        from netqasm.sdk.connection import DebugConnection
+        DebugConnection.node_ids = {"alice": 0, case["remote"]: 9}
+        with DebugConnection("alice", epr_sockets=[es]):
+            (es.create_keep if case["role"] == "create" else es.recv_keep)(number=1)[0].measure()
+        world.reset()
     kwargs: Dict[str, Any] = {"epr_sockets": [es]}
     flavour = None
     if case.get("hw") == "nv":
@@ -892,6 +901,9 @@ def shard_fn(shard):
         fn(c, part)
         if lo == 0 and i == 0:
             add_sample(part, c)
+        if part_name == "requests" and (lo + i) % 7 == 0:
+            fn(dict(c, socket_history="used-before-in-another-network"), part)
+            count(part, "socket-reused")
     count(part, f"shards/{part_name}")
     return part
 
@@ -922,6 +934,7 @@ def run(ctx):
     for apis in PART2_APIS.values():
         for api in apis:
             ctx.require(f"res-api/{api}", 1)
+    ctx.require("socket-reused", 100)
     ctx.require("loop/retried", 1)
     ctx.require("loop/single", 1)
     ctx.require("qlink_1_0/converted", 1000)
